@@ -77,6 +77,14 @@ def h_density(ex):
     ex.close(arr[1], ref_density(ex, r2, R, table), 'array-second-entry', tol=1e-12)
     ex.close(arr[2], 0.0, 'zero-at-the-surface-radius', tol=0.0)
     ex.close(arr[3], table[0][2](0.0), 'centre-value', tol=1e-12)
+    # radii given as integers (metres): a Python int, a list of ints, an integer ndarray
+    ri = ex.integer('ri', 0, 7000000)
+    wi = ref_density(ex, ri, R, table)
+    ex.close(mdl.density(ri), wi, 'integer-radius==reference-table', tol=1e-12)
+    li = mdl.density([ri, ri])
+    ex.close(li[1], wi, 'integer-list==reference-table', tol=1e-12)
+    ai = mdl.density(np.array([ri, ri]) if not ex.sym else ex.array([ri, ri]))
+    ex.close(ai[0], wi, 'integer-array==reference-table', tol=1e-12)
     # non-negative everywhere
     ex.le(0.0, got, 'density-nonnegative', tol=0.0)
     ex.le(got, RHO_MAX[ex.case['model']], 'density<=central-density', tol=1e-12)
@@ -232,7 +240,8 @@ def h_invariance(ex):
     # direction length: exact binary factors (so that normalisation is exact in float and
     # in the rational semantics alike); the generic factor is covered by the perfect-square
     # rule only for |d|^2 a rational square, hence the concrete family
-    lam = [0.5, 2.0, 8.0, 0.125][ex.choice(4)]
+    # (incl. very short and very long vectors: 2^-34 ~ 6e-11, 2^40 ~ 1e12)
+    lam = [0.5, 2.0, 8.0, 0.125, 2.0 ** -34, 2.0 ** 40][ex.choice(6)]
     scaled = mdl.slant_depth(e, [lam * c for c in d], step=step)
     if ex.twin == 'scaled':
         scaled = scaled * lam
